@@ -42,7 +42,10 @@ PREAMBLE = ("From H2V Require Import Base.Tac Base.Bytes Model.HpackEnc.\n"
             "Local Open Scope N_scope.\n")
 ORACLE_PREAMBLE = ("From H2V Require Import Base.Tac Base.Bytes Model.HpackEnc.\n"
                    "Local Open Scope N_scope.\n"
-                   "Definition oracle_ok c := oracle_hpack_enc c =? 0.\n")
+                   "Definition oracle_ok c := oracle_of_case c =? 0.\n")
+BOTH_PREAMBLE = ("From H2V Require Import Base.Tac Base.Bytes Model.HpackEnc.\n"
+                 "Local Open Scope N_scope.\n"
+                 "Definition both_ok c := check_and_oracle c =? 0.\n")
 
 ORACLE_CLASSES = {
     1: "emitted-block-rejected-by-reference-decoder",
@@ -58,7 +61,12 @@ ORACLE_CLASSES = {
 # rendering
 
 def nl(xs):
-    return common.coq_N_list(xs) if xs else "(@nil N)"
+    if not xs:
+        return "(@nil N)"
+    if len(xs) > 4000:
+        # one list literal of tens of thousands of elements overflows coqc's stack
+        return "(" + " ++ ".join(common.coq_N_list(xs[i:i + 2000]) for i in range(0, len(xs), 2000)) + ")"
+    return common.coq_N_list(xs)
 
 
 def pairs(fs):
@@ -102,16 +110,10 @@ def submitted(fields):
 
 
 def oracle_term(c):
-    """the history as the reference decoder sees it: up to the first block on which `encode`
-    panicked (nothing was handed to the peer for that block)"""
-    bl = []
-    for b in c["blocks"]:
-        if b.get("out") is None:
-            break
-        bl.append("(%s, %s, %s, %d, %d)" % (nl(b["ups"]), pairs(submitted(b["fields"])), nl(b["out"]),
-                                            b["table"]["size"], b["table"]["max"]))
-    body = "[" + "; ".join(bl) + "]" if bl else "(@nil oracle_enc_block)"
-    return "(%d, %s)" % (min(c["init"], MAX_ALLOWED), body)
+    """the oracle reads the same case term: `Model.HpackEnc.oracle_of_case` takes the history up
+    to the first block on which `encode` panicked, the submitted (name, value) lists (names of
+    nameless fields resolved) and the emitted octets from it"""
+    return case_term(c)
 
 
 def inputs_only(c):
@@ -178,8 +180,18 @@ def corpus_inputs():
 
 
 def _shard(terms):
+    """coqc reads list literals at ~40 kB/s: aim at 3 shards per core, at least 100 kB each"""
     total = sum(len(t) for t in terms)
-    return max(1, min(250, int(len(terms) * 1.2e6 / max(total, 1))))
+    per = max(1e5, total / (3.0 * common.NPROC))
+    return max(1, min(250, int(len(terms) * per / max(total, 1))))
+
+
+def both_failing(tag, cases):
+    """indices of histories where the model disagrees or the oracle objects (one pass)"""
+    if not cases:
+        return [], None
+    terms = [case_term(c) for c in cases]
+    return common.coq_eval_failing(tag, BOTH_PREAMBLE, "both_ok", terms, shard=_shard(terms), timeout=2400)
 
 
 def model_failing(tag, cases):
@@ -210,7 +222,7 @@ def h2_decoder_objects(c):
 
 def oracle_code(c):
     rc, out = common.coq_eval_raw("hpackenc_oracle_code", ORACLE_PREAMBLE +
-                                  'Goal True. idtac "@@RESULT". Abort.\nEval vm_compute in (oracle_hpack_enc %s).\n' % oracle_term(c))
+                                  'Goal True. idtac "@@RESULT". Abort.\nEval vm_compute in (oracle_of_case %s).\n' % oracle_term(c))
     if rc != 0 or "@@RESULT" not in out:
         return -1
     m = re.search(r"=\s*(\d+)\s*:\s*N", out.split("@@RESULT", 1)[1].replace("\n", " "))
@@ -365,14 +377,39 @@ def gather(tier, seed):
     return streams
 
 
+def evaluate(tag, streams):
+    """one Coq pass over all streams: per stream the indices where the model disagrees and where
+    the Coq oracle objects.  Returns ({stream: (model_failing, oracle_failing)}, err)."""
+    flat, where = [], []
+    for name, cases, _ in streams:
+        for i, c in enumerate(cases):
+            flat.append(c)
+            where.append((name, i))
+    res = {name: ([], []) for name, _, _ in streams}
+    failing, err = both_failing(tag, flat)
+    if failing:
+        sub = [flat[k] for k in failing]
+        mf, err1 = model_failing(tag + "_m", sub)
+        of, err2 = oracle_failing(tag + "_o", sub)
+        err = err or err1 or err2
+        for j in mf:
+            name, i = where[failing[j]]
+            res[name][0].append(i)
+        for j in of:
+            name, i = where[failing[j]]
+            res[name][1].append(i)
+    return res, err
+
+
 def correspond_hpackenc(rep, tier, seed):
     streams = gather(tier, seed)
+    res, err = evaluate("hpackenc", streams)
+    if err:
+        rep.violation("broken-correspondence", {"what": "coqc failed on generated hpackenc cases",
+                                                "log": err[-3000:]}, no_input=True)
     all_failing = []
     for name, cases, summary in streams:
-        failing, err = model_failing("hpackenc_" + name, cases)
-        if err:
-            rep.violation("broken-correspondence", {"what": "coqc failed on generated hpackenc cases (%s)" % name,
-                                                    "log": err[-3000:]}, no_input=True)
+        failing = res[name][0]
         nontrivial = len({json.dumps([b["fields"] for b in c["blocks"]]) for c in cases
                           if any(b.get("out") for b in c["blocks"])})
         rep.correspondences.append({
@@ -400,12 +437,12 @@ def correspond_hpackenc(rep, tier, seed):
                            "stream": name, "history": small, "history_text": readable(small),
                            "implementation": sc[0]["blocks"] if sc else None},
                           no_input=True)
-    # the oracle always runs as a cheap extra on the same histories
-    search_hpackenc(rep, tier, seed, reason=None, streams=streams)
+    # the oracle ran in the same pass on the same histories
+    search_hpackenc(rep, tier, seed, reason=None, streams=streams, oracle_res={k: v[1] for k, v in res.items()})
     return streams, all_failing
 
 
-def search_hpackenc(rep, tier, seed, reason=None, streams=None):
+def search_hpackenc(rep, tier, seed, reason=None, streams=None, oracle_res=None):
     """Search for a history on which the implementation violates C10, judged by the reference
     decoder and by h2's own decoder.  Returns True when one was reported."""
     if streams is None:
@@ -417,16 +454,25 @@ def search_hpackenc(rep, tier, seed, reason=None, streams=None):
         for mode in MODES:
             cs, summary = run_mode(mode, int(seed) + 7919, p[mode])
             streams.append((mode, cs, summary))
+    if oracle_res is None:
+        flat, where = [], []
+        for name, cases, _ in streams:
+            for i, c in enumerate(cases):
+                flat.append(c)
+                where.append((name, i))
+        failing, err = oracle_failing("hpackenc_oracle", flat)
+        if err:
+            rep.violation("broken-correspondence", {"what": "coqc failed on the hpackenc oracle cases",
+                                                    "log": err[-3000:]}, no_input=True)
+        oracle_res = {name: [] for name, _, _ in streams}
+        for k in failing:
+            oracle_res[where[k][0]].append(where[k][1])
     found = False
     total = nontrivial = failures = 0
     reductions = 0
     reported = set()
     for name, cases, summary in streams:
-        failing, err = oracle_failing("hpackenc_oracle_" + name, cases)
-        if err:
-            rep.violation("broken-correspondence", {"what": "coqc failed on the hpackenc oracle cases (%s)" % name,
-                                                    "log": err[-3000:]}, no_input=True)
-        failing = sorted(set(failing) | {i for i, c in enumerate(cases) if h2_decoder_objects(c)})
+        failing = sorted(set(oracle_res.get(name, [])) | {i for i, c in enumerate(cases) if h2_decoder_objects(c)})
         total += len(cases)
         nontrivial += sum(1 for c in cases if any(b.get("out") for b in c["blocks"]))
         reductions += sum(1 for c in cases for b in c["blocks"] if b.get("out") and (b["out"][0] & 0xe0) == 0x20)
@@ -440,7 +486,7 @@ def search_hpackenc(rep, tier, seed, reason=None, streams=None):
                 found = True
     rep.oracle_runs.append({"name": "hpackenc/rfc7541-reference-decoder+h2-decoder", "cases": total,
                             "nontrivial": nontrivial, "failures": failures, "blocks_starting_with_size_update": reductions,
-                            "rule": "Model.HpackEnc.oracle_hpack_enc on every history (reference decoder with hd := "
+                            "rule": "Model.HpackEnc.oracle_of_case on every history (reference decoder with hd := "
                                     "huff_decode_opt returns exactly the submitted fields; reductions signalled; table "
                                     "within the limit; encoder and decoder table accounts agree) AND h2's own Decoder "
                                     "decoded every block to the submitted fields with an identical table"})
